@@ -53,7 +53,7 @@ def work(task):
     for dev in task["devs"]:
         vis = V()
         nodes, done, msgs = tree.run_dev(cfg, default_fn, alts, dev, h, vis, batch=int(task.get("batch", 1)),
-                                         refine_at=task.get("refine_at"))
+                                         refine_at=task.get("refine_at"), solve_at=task.get("solve_at"))
         stats["runs"] += 1
         stats["nodes"] += nodes
         stats["trials"] += done
@@ -64,7 +64,8 @@ def work(task):
                 stats["summary"][k] = stats["summary"].get(k, 0) + v
         for j, m in msgs:
             viol.append(dict(driver="dev", cfg=cfg, alts=task["alts"], dev=[list(d) for d in dev], h=j, message=m,
-                             batch=int(task.get("batch", 1)), refine_at=task.get("refine_at"), visitor=task["visitor"],
+                             batch=int(task.get("batch", 1)), refine_at=task.get("refine_at"),
+                             solve_at=task.get("solve_at"), visitor=task["visitor"],
                              sig=dict(kind="node")))
         if len(viol) > 50:
             break
@@ -81,15 +82,15 @@ def replay(rec, visitor_spec):
     dev = tuple((int(p), int(a)) for p, a in rec["dev"])
     vis = V()
     nodes, done, msgs = tree.run_dev(cfg, default_fn, alts, dev, int(rec["h"]), vis, batch=int(rec.get("batch", 1)),
-                                     refine_at=rec.get("refine_at"))
+                                     refine_at=rec.get("refine_at"), solve_at=rec.get("solve_at"))
     return [m for _, m in msgs]
 
 
-def dev_tasks(cfg, h, b, visitor, alts=ALTS, chunk=150, start=2, batch=1, refine_at=None):
+def dev_tasks(cfg, h, b, visitor, alts=ALTS, chunk=150, start=2, batch=1, refine_at=None, solve_at=None):
     devs = list(tree.deviation_sets(h, len(alts), b, start=start))
     for i in range(0, len(devs), chunk):
         yield dict(kind="dev", cfg=cfg, h=h, alts=[list(a) for a in alts], devs=devs[i:i + chunk], visitor=visitor,
-                   batch=batch, refine_at=refine_at)
+                   batch=batch, refine_at=refine_at, solve_at=solve_at)
 
 
 def tree_tasks(cfg, alphabet_name, depth, visitor, split=2, batch=1):
@@ -177,6 +178,13 @@ def standard_plan(ctx, visitor, depths_quick=(8, 7, 6, 5, 5), depths_thorough=(1
                 # the deep end of the ladder: thousands of trials (batched calls, every trial judged)
                 tasks += list(dev_tasks(dict(cfg, r=3.0), 9000 if th else 4200, 0, visitor, batch=50))
             if refine_ops:
+                # Solve() in the middle of a step-wise search (budget used up: it may only notify), with each console
+                # listener mode riding along; the search is resumed afterwards
+                for mode in ("full", "custom", "result"):
+                    for pos in ((4, 9, 17, 30) if th else (6, 17)):
+                        c2 = dict(cfg, itersLimit=pos, console=mode)
+                        tasks += list(dev_tasks(c2, 60 if th else 45, 0, visitor, solve_at=pos))
+            if refine_ops:
                 # global iterations, one DoLocalRefinement call at every position p, then more global iterations
                 hh = 90 if th else 60
                 for pos in range(3, hh - 8, 2 if th else 5):
@@ -228,6 +236,7 @@ def describe(tasks):
             b = max((len(d) for d in t["devs"]), default=0)
             key = f"N={c['N']} r={c['r']} env={c['env']} horizon={t['h']}" + \
                   (f" refine_after={t['refine_at'][0]}" if t.get("refine_at") else "") + \
+                  (f" Solve_after={t['solve_at']} console={c.get('console')}" if t.get("solve_at") else "") + \
                   (f" batch={t['batch']}" if t.get("batch", 1) != 1 else "")
             e = devs.setdefault(key, [0, 0])
             e[0] += len(t["devs"])
